@@ -48,6 +48,52 @@ impl<'a, 'ast> Visit<'ast> for BodyScan<'a> {
         }
         syn::visit::visit_expr_struct(self, e);
     }
+    fn visit_expr_reference(&mut self, e: &'ast syn::ExprReference) {
+        // `&mut <something>.0` — a mutable borrow of a tuple field
+        if e.mutability.is_some() {
+            if let syn::Expr::Field(f) = &*e.expr {
+                if let syn::Member::Unnamed(ix) = &f.member {
+                    if ix.index == 0 {
+                        self.events.push(json!({"mut_borrow_of_field": f.base.to_token_stream().to_string()}));
+                    }
+                }
+            }
+        }
+        syn::visit::visit_expr_reference(self, e);
+    }
+    fn visit_expr_assign(&mut self, e: &'ast syn::ExprAssign) {
+        let mut l: &syn::Expr = &e.left;
+        // peel derefs / indexes / method receivers down to a field access
+        loop {
+            match l {
+                syn::Expr::Unary(u) => l = &u.expr,
+                syn::Expr::Index(i) => l = &i.expr,
+                syn::Expr::Paren(p) => l = &p.expr,
+                _ => break,
+            }
+        }
+        if let syn::Expr::Field(f) = l {
+            if let syn::Member::Unnamed(ix) = &f.member {
+                if ix.index == 0 {
+                    self.events.push(json!({"assign_to_field": f.base.to_token_stream().to_string()}));
+                }
+            }
+        }
+        syn::visit::visit_expr_assign(self, e);
+    }
+    fn visit_expr_binary(&mut self, e: &'ast syn::ExprBinary) {
+        use syn::BinOp::*;
+        if matches!(e.op, AddAssign(_) | SubAssign(_) | MulAssign(_) | DivAssign(_) | RemAssign(_) | BitXorAssign(_) | BitAndAssign(_) | BitOrAssign(_) | ShlAssign(_) | ShrAssign(_)) {
+            if let syn::Expr::Field(f) = &*e.left {
+                if let syn::Member::Unnamed(ix) = &f.member {
+                    if ix.index == 0 {
+                        self.events.push(json!({"assign_to_field": f.base.to_token_stream().to_string()}));
+                    }
+                }
+            }
+        }
+        syn::visit::visit_expr_binary(self, e);
+    }
     fn visit_expr_unsafe(&mut self, e: &'ast syn::ExprUnsafe) {
         self.unsafe_blocks += 1;
         syn::visit::visit_expr_unsafe(self, e);
